@@ -32,6 +32,10 @@ func (e *Engine) runStatic(name, prop string) ([]staticResult, []string) {
 		return e.lockDominates(prop)
 	case "ident-impls":
 		return e.identImpls(prop)
+	case "assign-first":
+		return e.assignFirst(prop)
+	case "alloc-sites":
+		return e.allocSites(prop)
 	}
 	return nil, []string{"unknown static check " + name}
 }
@@ -595,6 +599,241 @@ func (e *Engine) identImpls(prop string) ([]staticResult, []string) {
 		if n == 0 {
 			errs = append(errs, "ident-impls: no implementation of "+w.iface+" found (vacuous)")
 		}
+	}
+	return res, errs
+}
+
+
+// assignFirst: every print entry point runs the ID assignment of its receiver
+// unconditionally and before anything else: the assigner call dominates every other
+// call of the function (calls on the panic path of a failed assignment excepted).
+// This is what turns "renumbering is position-derived" (C08/C14 units) into "what a
+// print shows does not depend on earlier prints", and it is condition O3 of C13.
+func (e *Engine) assignFirst(prop string) ([]staticResult, []string) {
+	targets := []struct {
+		pkg, key  string
+		assigners []string
+	}{
+		{modPath + "/ir", "(*Func).LLString", []string{"(*" + modPath + "/ir.Func).AssignIDs"}},
+		{modPath + "/ir", "(*Module).WriteTo", []string{"(*" + modPath + "/ir.Module).AssignGlobalIDs", "(*" + modPath + "/ir.Module).AssignMetadataIDs"}},
+	}
+	var res []staticResult
+	var errs []string
+	for _, t := range targets {
+		pkg := e.pkgs[t.pkg]
+		if pkg == nil {
+			errs = append(errs, "assign-first: package "+t.pkg+" not loaded")
+			continue
+		}
+		fn, err := e.lookupFunc(pkg, t.key)
+		if err != nil {
+			errs = append(errs, "assign-first: contract-stale "+t.key+": "+err.Error())
+			continue
+		}
+		// blocks from which the function can only panic (error path of a failed assignment)
+		panics := map[*ssa.BasicBlock]bool{}
+		for _, b := range fn.Blocks {
+			if len(b.Instrs) > 0 {
+				if _, ok := b.Instrs[len(b.Instrs)-1].(*ssa.Panic); ok {
+					panics[b] = true
+				}
+			}
+		}
+		isRecv := func(v ssa.Value) bool {
+			if len(fn.Params) == 0 {
+				return false
+			}
+			if v == fn.Params[0] {
+				return true
+			}
+			if u, ok := v.(*ssa.UnOp); ok && u.Op == token.MUL {
+				if a, ok := u.X.(*ssa.Alloc); ok {
+					n := 0
+					good := false
+					for _, r := range *a.Referrers() {
+						if st, ok := r.(*ssa.Store); ok && st.Addr == a {
+							n++
+							good = st.Val == fn.Params[0]
+						}
+					}
+					return n == 1 && good
+				}
+			}
+			return false
+		}
+		for _, an := range t.assigners {
+			short := an[strings.LastIndex(an, ".")+1:]
+			r := staticResult{Name: "assign-first:" + t.key + ":" + short, Func: fn.String(), Kind: "assign-first", Pos: posOf(e, fn.Pos()), Status: "unsat",
+				Detail: short + "() is called on the receiver unconditionally and dominates every other call of " + t.key}
+			var site *ssa.Call
+			var problems []string
+			for _, b := range fn.Blocks {
+				for _, ins := range b.Instrs {
+					if c, ok := ins.(*ssa.Call); ok {
+						if f, ok := c.Call.Value.(*ssa.Function); ok && f.String() == an {
+							if site != nil {
+								continue
+							}
+							site = c
+						}
+					}
+				}
+			}
+			if site == nil {
+				problems = append(problems, short+"() is not called")
+			} else {
+				if len(site.Call.Args) == 0 || !isRecv(site.Call.Args[0]) {
+					problems = append(problems, fmt.Sprintf("%s: %s() is not called on the receiver", posOf(e, site.Pos()), short))
+				}
+				sb := site.Block()
+				idx := func(b *ssa.BasicBlock, x ssa.Instruction) int {
+					for i, ins := range b.Instrs {
+						if ins == x {
+							return i
+						}
+					}
+					return -1
+				}
+				for _, b := range fn.Blocks {
+					if panics[b] {
+						continue
+					}
+					for _, ins := range b.Instrs {
+						ci, ok := ins.(ssa.CallInstruction)
+						if !ok || ins == ssa.Instruction(site) {
+							continue
+						}
+						if bi, ok := ci.Common().Value.(*ssa.Builtin); ok && (strings.HasPrefix(bi.Name(), "ssa:") || bi.Name() == "len" || bi.Name() == "cap") {
+							continue
+						}
+						if f, ok := ci.Common().Value.(*ssa.Function); ok {
+							isOther := false
+							for _, o := range t.assigners {
+								if f.String() == o {
+									isOther = true
+								}
+							}
+							if isOther {
+								continue
+							}
+						}
+						dom := sb.Dominates(b) && (sb != b || idx(sb, site) < idx(b, ins))
+						if !dom {
+							problems = append(problems, fmt.Sprintf("%s: call not dominated by %s()", posOf(e, ins.Pos()), short))
+						}
+					}
+					if rt, ok := b.Instrs[len(b.Instrs)-1].(*ssa.Return); ok {
+						if !(sb.Dominates(b)) {
+							problems = append(problems, fmt.Sprintf("%s: return not dominated by %s()", posOf(e, rt.Pos()), short))
+						}
+					}
+				}
+			}
+			if len(problems) > 6 {
+				problems = append(problems[:6], fmt.Sprintf("... %d more", len(problems)-6))
+			}
+			if len(problems) > 0 {
+				r.Status = "fail"
+				r.Detail = strings.Join(problems, "; ")
+			}
+			res = append(res, r)
+		}
+	}
+	return res, errs
+}
+
+// allocSites: objects of the listed types are created only inside the listed functions of
+// package asm (whitelist sweep). Used for C04: every blockaddress constant the translator
+// creates goes through (*generator).irBlockAddressConst, which registers it for the fix-up
+// pass that replaces the placeholder block by the block of the named function.
+func (e *Engine) allocSites(prop string) ([]staticResult, []string) {
+	type rule struct {
+		pkg     string   // package swept
+		typ     string   // full type string of the created object
+		ctors   []string // constructor functions whose calls count as creation sites
+		allowed []string // functions (String()) allowed to create
+		why     string
+	}
+	rules := []rule{{modPath + "/asm", modPath + "/ir/constant.BlockAddress", []string{modPath + "/ir/constant.NewBlockAddress"},
+		[]string{"(*" + modPath + "/asm.generator).irBlockAddressConst"},
+		"every blockaddress constant is created by irBlockAddressConst (which records it in gen.todo for the block fix-up)"}}
+	var res []staticResult
+	var errs []string
+	for _, ru := range rules {
+		pkg := e.pkgs[ru.pkg]
+		if pkg == nil {
+			errs = append(errs, "alloc-sites: package "+ru.pkg+" not loaded")
+			continue
+		}
+		short := ru.typ[strings.LastIndex(ru.typ, "/")+1:]
+		r := staticResult{Name: "alloc-sites:" + short, Func: ru.pkg, Kind: "alloc-sites", Status: "unsat", Detail: ru.why}
+		var problems []string
+		nsites := 0
+		var visit func(fn *ssa.Function)
+		seen := map[*ssa.Function]bool{}
+		visit = func(fn *ssa.Function) {
+			if fn == nil || seen[fn] {
+				return
+			}
+			seen[fn] = true
+			ok := false
+			for _, a := range ru.allowed {
+				if fn.String() == a {
+					ok = true
+				}
+			}
+			for _, b := range fn.Blocks {
+				for _, ins := range b.Instrs {
+					creates := false
+					switch x := ins.(type) {
+					case *ssa.Alloc:
+						if pt, isP := x.Type().(*types.Pointer); isP && types.TypeString(pt.Elem(), nil) == ru.typ {
+							creates = true
+						}
+					case ssa.CallInstruction:
+						if f, isF := x.Common().Value.(*ssa.Function); isF {
+							for _, c := range ru.ctors {
+								if f.String() == c {
+									creates = true
+								}
+							}
+						}
+					}
+					if creates {
+						nsites++
+						if !ok {
+							problems = append(problems, fmt.Sprintf("%s: %s created in %s", posOf(e, ins.Pos()), short, fn.Name()))
+						}
+					}
+				}
+			}
+			for _, an := range fn.AnonFuncs {
+				visit(an)
+			}
+		}
+		for _, m := range pkg.Members {
+			switch x := m.(type) {
+			case *ssa.Function:
+				visit(x)
+			case *ssa.Type:
+				for _, T := range []types.Type{x.Type(), types.NewPointer(x.Type())} {
+					ms := e.prog.MethodSets.MethodSet(T)
+					for i := 0; i < ms.Len(); i++ {
+						if f := e.prog.MethodValue(ms.At(i)); f != nil && f.Pkg == pkg {
+							visit(f)
+						}
+					}
+				}
+			}
+		}
+		if nsites == 0 {
+			problems = append(problems, "no creation site found (contract-stale: the whitelist names nothing)")
+		}
+		if len(problems) > 0 {
+			r.Status = "fail"
+			r.Detail = strings.Join(problems, "; ")
+		}
+		res = append(res, r)
 	}
 	return res, errs
 }
